@@ -523,7 +523,7 @@ def synthetic_cases():
 ALIGNMENTS = ["none", "axis", "dpd1", "dpd2", "dpd3"]
 
 
-def formulate(reaction, align: str, robust_masses: bool = True):
+def formulate(reaction, align: str, robust_masses: bool = True, helicity_couplings: bool = False):
     """the real model for (reaction, alignment); DPD works on relabelled edge ids"""
     import ampform
     from ampform.helicity.align import NoAlignment
@@ -542,7 +542,78 @@ def formulate(reaction, align: str, robust_masses: bool = True):
     if robust_masses:
         builder.config.scalar_initial_state_mass = True
         builder.config.stable_final_state_ids = list(reaction.final_state)
+    if helicity_couplings:
+        builder.config.use_helicity_couplings = True
     return builder.formulate(), reaction
+
+
+def make_alignment(align: str):
+    from ampform.helicity.align import NoAlignment
+    from ampform.helicity.align.axisangle import AxisAngleAlignment
+    from ampform.helicity.align.dpd import DalitzPlotDecomposition
+
+    if align.startswith("dpd"):
+        return DalitzPlotDecomposition(reference_subsystem=int(align[3]))
+    return AxisAngleAlignment() if align == "axis" else NoAlignment()
+
+
+def model_fingerprint(model) -> dict:
+    """what must not depend on what was formulated before"""
+    import sympy as sp
+
+    return {
+        "intensity": sp.srepr(model.intensity),
+        "amplitudes": sorted((sp.srepr(k), sp.srepr(sp.sympify(v))) for k, v in model.amplitudes.items()),
+        "parameters": sorted(str(k) for k in model.parameter_defaults),
+        "kinematic_variables": sorted((str(k), sp.srepr(v)) for k, v in model.kinematic_variables.items()),
+    }
+
+
+def history_probe(reaction, sequences) -> list[dict]:
+    """HARDENING rule 3: drive ONE builder through alignment sequences and compare every model with
+    the model of a fresh builder (the DPD amplitude is functools.cache'd and its angle dict is mutable;
+    a caller may also write into the dict `define_symbols` returns)."""
+    import ampform
+    from ampform.helicity.align.dpd import relabel_edge_ids
+
+    problems = []
+    for relabel, seq in sequences:
+        rr = relabel_edge_ids(reaction) if relabel else reaction
+
+        def fresh(align):
+            b = ampform.get_builder(rr)
+            b.config.spin_alignment = make_alignment(align)
+            b.config.scalar_initial_state_mass = True
+            b.config.stable_final_state_ids = list(rr.final_state)
+            return model_fingerprint(b.formulate())
+
+        reference = {a: fresh(a) for a in dict.fromkeys(seq)}
+        builder = ampform.get_builder(rr)
+        builder.config.scalar_initial_state_mass = True
+        builder.config.stable_final_state_ids = list(rr.final_state)
+        for step, align in enumerate(seq):
+            alignment = make_alignment(align)
+            builder.config.spin_alignment = alignment
+            got = model_fingerprint(builder.formulate())
+            # a caller scribbles into what the public API handed out
+            symbols = alignment.define_symbols(rr)
+            symbols.clear()
+            for field in got:
+                if got[field] != reference[align][field]:
+                    problems.append({"sequence": list(seq), "step": step, "alignment": align, "field": field,
+                                     "relabelled": relabel})
+        again = {a: fresh(a) for a in dict.fromkeys(seq)}
+        for a in again:
+            if again[a] != reference[a]:
+                problems.append({"sequence": list(seq), "step": "fresh builder afterwards", "alignment": a,
+                                 "field": [f for f in again[a] if again[a][f] != reference[a][f]], "relabelled": relabel})
+    return problems
+
+
+HISTORY_SEQUENCES = [
+    (False, ["none", "axis", "none", "axis"]),
+    (True, ["none", "dpd1", "dpd2", "dpd3", "dpd1", "none"]),
+]
 
 
 def formulate_amplitude_only(reaction, align: str):
@@ -888,7 +959,7 @@ def random_parameters(model, rng):
     return params
 
 
-def numeric_case(case, reaction, seed_rng, n_events: int, robust: bool = True):
+def numeric_case(case, reaction, seed_rng, n_events: int, robust: bool = True, helicity_couplings: bool = False):
     """intensities of the five models of one reaction at the same events and couplings"""
     import numpy as np
 
@@ -905,7 +976,7 @@ def numeric_case(case, reaction, seed_rng, n_events: int, robust: bool = True):
     out = {}
     for align in aligns:
         try:
-            model, rr = formulate(reaction, align, robust)
+            model, rr = formulate(reaction, align, robust, helicity_couplings)
         except Exception as e:  # noqa: BLE001
             out[align] = {"error": "formulate", "detail": "".join(traceback.format_exception_only(type(e), e))[-400:]}
             continue
@@ -918,6 +989,48 @@ def numeric_case(case, reaction, seed_rng, n_events: int, robust: bool = True):
         except Exception as e:  # noqa: BLE001
             out[align] = {"error": "evaluate", "detail": "".join(traceback.format_exception_only(type(e), e))[-400:]}
     return out, events
+
+
+def hashseed_digest() -> dict:
+    """run in a fresh process (PYTHONHASHSEED set by the caller): the aligned amplitudes of the corpus
+    reactions, once as printed (iteration orders visible) and once canonicalised"""
+    import hashlib
+
+    import sympy as sp
+
+    common.use_repo_source()
+    raw, canonical = [], []
+    for case in CASES:
+        reaction = get_case(case)
+        cls = classify(reaction)
+        if not cls["single_topology"]:
+            continue
+        for align in ["axis"] + (["dpd1", "dpd2", "dpd3"] if cls["n_final"] == 3 else []):
+            expr, rr = formulate_amplitude_only(reaction, align)
+            raw.append(sp.srepr(expr))
+            canonical.append("|".join(extract_skeleton(expr, rr, align, amplitude_only=True)))
+    return {"raw": hashlib.sha1("\n".join(raw).encode()).hexdigest(),
+            "canonical": hashlib.sha1("\n".join(canonical).encode()).hexdigest()}
+
+
+def subprocess_timeout():
+    import subprocess
+
+    return subprocess.TimeoutExpired
+
+
+def hashseed_probe(seeds=(1, 2, 3, 4)) -> dict:
+    import os
+    import subprocess
+
+    out = {}
+    for hs in seeds:
+        env = dict(os.environ, PYTHONHASHSEED=str(hs))
+        p = subprocess.run([common.PY, "-c", "import json; from tools.props import C05; print('DIGEST', json.dumps(C05.hashseed_digest()))"],
+                           cwd=common.ROOT, env=env, capture_output=True, text=True, timeout=600)
+        line = [l for l in p.stdout.splitlines() if l.startswith("DIGEST ")]
+        out[hs] = json.loads(line[0][7:]) if line else {"error": (p.stdout + p.stderr)[-300:]}
+    return out
 
 
 # ============================================================================ the check
@@ -1008,7 +1121,13 @@ class C05Property:
         range_inputs = []
         for s2 in range(0, 21):
             for flag in (False, True):
-                forms = [s2 / 2, Fraction(s2, 2)] + ([s2 // 2] if s2 % 2 == 0 else [])
+                import decimal
+
+                import numpy
+                import sympy
+
+                forms = [s2 / 2, Fraction(s2, 2), sympy.Rational(s2, 2), numpy.float64(s2 / 2), decimal.Decimal(s2) / 2]
+                forms += [s2 // 2] if s2 % 2 == 0 else []
                 range_inputs.append((s2, flag, forms))
         for s2 in range(-6, 0):  # malformed stream: negative magnitudes
             for flag in (False, True):
@@ -1033,6 +1152,7 @@ class C05Property:
             except Exception as e:  # noqa: BLE001
                 raise common.InfraError(f"corpus reaction {case['file']} cannot be loaded: {e!r}") from e
             cases.append((case, reaction, classify(reaction)))
+        by_name_all = {c["name"]: r for c, r, _ in cases}
         skel_real = {}
         formulate_errors = {}
         timeouts = []
@@ -1177,7 +1297,7 @@ class C05Property:
                 elif key == ("lc_pKpi_L1520", "axis"):
                     chk.sample({"skeleton": list(key), "lines": real[:8]})
         chk.info("range_correspondence", {"requests": len(range_inputs), "results": range_dist, "mismatches": range_mismatch,
-                                          "domain": "2s in -6..20 x flag, passed as float / Fraction / int"})
+                                          "domain": "2s in -6..20 x flag, passed as float / Fraction / sympy.Rational / numpy.float64 / Decimal / int"})
         chk.info("skeleton_correspondence", {
             "compared": len(skel_real), "mismatches": skel_mismatch,
             "corpus_reactions": sorted({k[0] for k in skel_real if not k[0].startswith("syn")}),
@@ -1194,6 +1314,54 @@ class C05Property:
                  "expected": "a HelicityModel"}))
 
         lap("lean driver + comparison")
+        # ---- histories on ONE builder vs fresh builders
+        hist_names = [c["name"] for c, _, k in cases if k["n_final"] == 3 and k["single_topology"] and not c.get("sub")]
+        if not thorough:
+            hist_names = [n for n in hist_names if n in ("lc_pKpi_Kstar", "lc_pKpi_L1520", "jpsi_gpi0pi0_f0")]
+        hist_problems = []
+        for n in hist_names:
+            try:
+                with time_limit(case_cap):
+                    probs = history_probe(by_name_all[n], HISTORY_SEQUENCES)
+            except CaseTimeout as e:
+                timeouts.append({"phase": "history", "reaction": n, "detail": str(e)})
+                continue
+            except Exception as e:  # noqa: BLE001
+                probs = [{"error": "".join(traceback.format_exception_only(type(e), e))[-300:]}]
+            chk.count(("history", n), len(HISTORY_SEQUENCES))
+            for pr in probs:
+                hist_problems.append({"reaction": n, **pr})
+        chk.info("history_probe", {"reactions": hist_names, "sequences": [s_ for _, s_ in HISTORY_SEQUENCES], "problems": len(hist_problems)})
+        if hist_problems:
+            failing.append((
+                {"class": "aligned model depends on what was formulated before"},
+                {"input": {"reaction": hist_problems[0]["reaction"], "corpus": str(CORPUS), **hist_problems[0],
+                           "between_steps": "alignment.define_symbols(reaction).clear() on the returned dict"},
+                 "observed": "model differs from the model of a fresh builder", "all": hist_problems[:6]}))
+        # DPD is formulated for three-body decays only; what a 4-body reaction does is recorded, not judged
+        try:
+            r4 = by_name_all["jpsi_kpikpi_4body"]
+            try:
+                formulate_amplitude_only(r4, "dpd1")
+                chk.info("dpd_on_4_body", "formulates")
+            except Exception as e:  # noqa: BLE001
+                chk.info("dpd_on_4_body", "raises " + "".join(traceback.format_exception_only(type(e), e)).strip()[-160:])
+        except KeyError:
+            pass
+        lap("history probe")
+        if True:
+            try:
+                hs = hashseed_probe((1, 2, 3, 4) if thorough else (1, 2))
+                canon_set = {v.get("canonical") for v in hs.values()}
+                chk.info("hash_seed_probe", {"seeds": list(hs), "distinct_raw_expressions": len({v.get("raw") for v in hs.values()}),
+                                             "distinct_canonical_skeletons": len(canon_set),
+                                             "errors": [v["error"] for v in hs.values() if "error" in v][:2]})
+                chk.count(("hashseeds",), len(hs))
+                if len(canon_set) != 1 or any("error" in v for v in hs.values()):
+                    chk.broken_correspondence("aligned amplitude depends on PYTHONHASHSEED", hs)
+            except subprocess_timeout() as e:
+                timeouts.append({"phase": "hash seeds", "detail": str(e)})
+            lap("hash seed probe")
         # ---- numeric oracle
         rng = common.rng_for(PROP_ID, seed, "oracle")
         n_events = (12 if thorough else 4) * (2 if chk.broken else 1)
@@ -1215,20 +1383,37 @@ class C05Property:
                    if not mixed and c["complete_helicity_sets"] and c["single_topology"]]
         def cost(name):
             """number of terms of the axis-angle alignment sum (what the SymPy evaluation time scales with)"""
-            reaction, _, key, types, _ = syn_reactions[name]
-            c = 1
+            reaction, cls_, key, types, _ = syn_reactions[name]
+            c = cls_["spins2"][0] + 1
             for i, t in enumerate(types):
                 d = depth_of(syn_tops[key], i)
                 c *= int(2 * SYN_ALL[t][0] + 1) ** (d + 1 if d >= 2 else 1)
             return c
 
-        mixed4 = [n for n in mixed4 if cost(n) <= 250]
-        general = [n for n in general if cost(n) <= 250]
+        def spins_ok(name):
+            return max(syn_reactions[name][1]["spins2"]) <= 5
+
+        def is_high(name):
+            return any(t in SYN_HIGH for t in syn_reactions[name][3])
+
+        mixed4 = [n for n in mixed4 if cost(n) <= 500]
+        general = [n for n in general if cost(n) <= 500 and spins_ok(n)]
+        high = [n for n in general if is_high(n)]
+        boundary = [n for n in general if n.endswith(":min+0") and not is_high(n)]  # equal masses, initial spin 0 / 1/2
         if thorough:
-            chosen = mixed3 + pick_rng.sample(mixed4, 2) + pick_rng.sample(general, 10)
+            chosen = (mixed3 + pick_rng.sample(mixed4, 2) + pick_rng.sample([n for n in general if not is_high(n)], 8)
+                      + pick_rng.sample(high, 6) + pick_rng.sample(boundary, 4))
         else:
-            chosen = pick_rng.sample([n for n in mixed3 if cost(n) <= 110], 4)
+            chosen = (pick_rng.sample([n for n in mixed3 if cost(n) <= 110], 3)
+                      + pick_rng.sample([n for n in high if cost(n) <= 100], 1)
+                      + pick_rng.sample([n for n in boundary if cost(n) <= 100], 1))
+        chosen = list(dict.fromkeys(chosen))
         chosen += [n for n in sorted(forced) if n in syn_reactions and n not in chosen][:4]
+        # non-default public options (HARDENING rule 5): masses from the four-momenta, helicity couplings
+        by_name = {c["name"]: (c, r, k) for c, r, k in cases}
+        for n in (["lc_pKpi_Kstar", "psi2S_jpsipipi_f0", "lc_pKpi_L1520"] if thorough else ["lc_pKpi_Kstar"]):
+            c, r, k = by_name[n]
+            jobs.append(({**c, "name": n + "[default masses, helicity couplings]", "options": {"robust": False, "helicity_couplings": True}}, r, k))
         for n in chosen:
             reaction, cls, key, types, _ = syn_reactions[n]
             jobs.append(({"name": n, "file": None, "synthetic": {"topology": tree_string(syn_tops[key]), "types": list(types),
@@ -1251,7 +1436,7 @@ class C05Property:
                 continue
             try:
                 with time_limit(case_cap):
-                    results, _ = numeric_case(case, reaction, rng, n_events)
+                    results, _ = numeric_case(case, reaction, rng, n_events, **case.get("options", {}))
             except CaseTimeout as e:
                 timeouts.append({"phase": "numeric oracle", "reaction": case["name"], "detail": str(e)})
                 entry["skipped"] = f"case {e}"
@@ -1291,7 +1476,8 @@ class C05Property:
                     "input": {"reaction": case["name"],
                               "corpus_file": f"corpus/C05/{case['file']}.json" if case.get("file") else None,
                               "synthetic": case.get("synthetic"),
-                              "substitution": case.get("sub"), "alignment": align, "event_index": i,
+                              "substitution": case.get("sub"), "builder_options": case.get("options"),
+                              "alignment": align, "event_index": i,
                               "seed": seed, "tier": tier},
                     "observed": (float(val[i]) if np.isfinite(val[i]) else repr(float(val[i]))), "expected": float(refv[i]),
                     "relative_difference": None if not np.isfinite(val[i]) else float(rel[i]), "tolerance": tol,
